@@ -52,6 +52,12 @@ type Scenario struct {
 	// P2POnly > 0: the last P2POnly blocks of the chain are NOT on the DA layer; the node gets them over
 	// P2P only (so nothing genuine on the DA layer can justify marking them DA-included)
 	P2POnly int `json:"p2p_only,omitempty"`
+	// KeyLabel selects the proposer key of this scenario (a proposer address the process has not seen).
+	KeyLabel string `json:"key_label,omitempty"`
+	// Poison: before anything genuine exists, the process decodes a third party's header and signed data
+	// that name the proposer's address with the adversary's key (a node whose first contact with that
+	// address is adversarial material). Decoding must not leave anything behind.
+	Poison bool `json:"poison,omitempty"`
 }
 
 var kinds = []string{"f7-header-copy", "f7-header-copy", "f6-replayed-txs", "f6-replayed-txs", "f1-header", "f1-data", "f1-pair", "f1-pair", "f2-header", "f2-data", "f3-unsigned", "f3-garbage-sig", "f4-chainid", "f4-past", "f4-future", "f5-header-bytes", "f5-data-bytes", "foreign-address"}
@@ -59,6 +65,10 @@ var kinds = []string{"f7-header-copy", "f7-header-copy", "f6-replayed-txs", "f6-
 func gen(t *rapid.T) Scenario {
 	sc := Scenario{InitialHeight: c02gen.GenInitial(t)}
 	sc.Chain = c02gen.GenChain(t, world.Scale(6, 12))
+	if rapid.IntRange(0, 2).Draw(t, "freshkey") == 0 {
+		sc.KeyLabel = "proposer-" + rapid.StringMatching(`[a-z]{5}`).Draw(t, "keylabel")
+		sc.Poison = rapid.Bool().Draw(t, "poison")
+	}
 	if rapid.IntRange(0, 2).Draw(t, "p2ponly") == 0 {
 		sc.P2POnly = rapid.IntRange(1, len(sc.Chain)).Draw(t, "p2ponlyn")
 	}
@@ -469,10 +479,36 @@ func run(sc Scenario, dir string) world.Verdict {
 	return sw.InBubble(func() world.Verdict {
 		root, _ := os.MkdirTemp(dir, "c03")
 		defer os.RemoveAll(root)
-		c, err := fw.BuildChain(world.NodeOpts{ChainID: "c03-chain", InitialHeight: sc.InitialHeight, RootDir: root + "/p",
+		if sc.Poison {
+			label := sc.KeyLabel
+			if label == "" {
+				label = "proposer"
+			}
+			_, propPub := world.KeyFromSeed(label)
+			advPriv, advPub := world.KeyFromSeed("adversary")
+			addr := types.KeyAddress(propPub)
+			h := types.SignedHeader{Header: types.Header{BaseHeader: types.BaseHeader{Height: sc.InitialHeight, ChainID: "c03-chain", Time: 1}, ProposerAddress: addr, DataHash: sha256Sum([]byte("x")), AppHash: sha256Sum([]byte("y"))},
+				Signer: types.Signer{PubKey: advPub, Address: addr}}
+			payload, _ := h.Header.MarshalBinary()
+			h.Signature = sign(advPriv, payload)
+			if bz := marshalHeader(&h); bz != nil {
+				_, _ = fw.DecodeHeader(bz)
+				_ = new(types.SignedHeader).UnmarshalBinary(bz)
+			}
+			d := types.Data{Metadata: &types.Metadata{ChainID: "c03-chain", Height: sc.InitialHeight}, Txs: types.Txs{types.Tx(evilTx)}}
+			dbz, _ := d.MarshalBinary()
+			sd := types.SignedData{Data: d, Signature: sign(advPriv, dbz), Signer: types.Signer{PubKey: advPub, Address: addr}}
+			if bz, err := sd.MarshalBinary(); err == nil {
+				_, _ = fw.DecodeData(bz)
+			}
+		}
+		c, err := fw.BuildChain(world.NodeOpts{ChainID: "c03-chain", InitialHeight: sc.InitialHeight, RootDir: root + "/p", KeyLabel: sc.KeyLabel,
 			// go-header's Verify compares header times with the (virtual) clock, which starts at 2000-01-01
 			GenesisTime: time.Date(1999, 6, 1, 0, 0, 0, 0, time.UTC)}, sc.Chain)
 		if err != nil {
+			if sc.Poison {
+				return world.Fail("C03/decoding-adversarial-material-left-state-behind", "after the process decoded a third party's header/data naming the proposer's address with a foreign key, the proposer itself cannot build a valid chain any more: %v", err)
+			}
 			return world.Fail("C03/chain", "cannot build the proposer chain: %v", err)
 		}
 		items := make([]item, len(sc.Advs))
